@@ -1793,6 +1793,13 @@ def override(index, rep):
                     got.append(f"writes {extra}")
         rep.check(ok, rule, f"override:{opt}",
                   f"{opt} must scale exactly {prefix}1..11 once each and nothing else ({sorted(got)[:4]})", loc=loc(RUN, fn))
+        # the scaled ratios are the last word as well: nothing that runs after the block writes a yearly ratio again (the disruption
+        # setters come first; a setter called afterwards would silently drop the multiplier)
+        if len(blk) == 1:
+            later = sorted({w for i in range(1, 12) for w in _later_writers(index, fn, blk[0], f"{prefix}{i}")})
+            rep.check(not later, rule, f"override-survives:{opt}",
+                      f"the yearly ratios scaled by {opt} are written again after the multiplier block: " + "; ".join(later[:4]) +
+                      " - the multiplier is lost", loc=loc(RUN, blk[0]))
     rep.require_min(rule, 20)
 
 
